@@ -177,8 +177,15 @@ def _ldec(b, i):
 
 
 def lenient_decode(b):
-    """Decode without demanding canonicity (dict order preserved, last duplicate wins)."""
-    return _ldec(b, 0)[0]
+    """Decode without demanding canonicity (dict order preserved, last duplicate wins).
+    Bytes that are not bencoding at all raise BErr (never another exception)."""
+    try:
+        value, end = _ldec(bytes(b), 0)
+    except (ValueError, IndexError, RecursionError, TypeError) as exc:
+        raise BErr(f"not bencoding: {type(exc).__name__}: {str(exc)[:80]}") from None
+    if end > len(b):
+        raise BErr("not bencoding: a string runs past the end of the data")
+    return value
 
 
 def info_span(b):
